@@ -24,6 +24,7 @@ type Case struct {
 	Resp  string `json:"resp"`
 	Cuts  []int  `json:"cuts,omitempty"`  // packet boundaries inside the response body
 	Reads []int  `json:"reads,omitempty"` // offsets at which the TCP stream is split into read results
+	Prev  string `json:"prev,omitempty"`  // a complete earlier response on the same channel (delivered in one packet and drained first)
 }
 
 var h *hlib.H
@@ -36,7 +37,13 @@ func deliver(c Case) (rx.Obs, *vrt.Exec) {
 	if len(c.Reads) > 0 {
 		chunks = rx.SplitStream(pk, c.Reads)
 	}
+	if c.Prev != "" {
+		chunks = append(rx.OneChunk(rx.Packets(corpus[c.Prev].Bytes(), nil)), chunks...)
+	}
 	return rx.Deliver(vrt.Config{}, rx.Script{Chunks: chunks}, func(conn *tds.Conn, ch *tds.Channel, pipe *vrt.Pipe, o *rx.Obs) {
+		if c.Prev != "" {
+			rx.Drain(ch, 300)
+		}
 		o.Items = rx.Drain(ch, 300)
 	})
 }
@@ -85,6 +92,9 @@ func cutClass(c Case, n int) string {
 	case len(c.Cuts) == 0:
 		return "single-packet"
 	}
+	if c.Prev != "" {
+		return fmt.Sprintf("%d-cuts-after-earlier-response", min(len(c.Cuts), 3))
+	}
 	return fmt.Sprintf("%d-cuts", min(len(c.Cuts), 3))
 }
 
@@ -113,7 +123,7 @@ func run(c Case) {
 		h.Violate("C02|"+strings.SplitN(o.Failure, ":", 2)[0]+"|"+cls, fmt.Sprintf("%s cuts=%v reads=%v: %s %s; delivered so far: %v", c.Resp, c.Cuts, c.Reads, o.Failure, o.Setup, o.Descs()), c)
 		return
 	}
-	if len(c.Cuts) == 0 && len(c.Reads) == 0 {
+	if len(c.Cuts) == 0 && len(c.Reads) == 0 && c.Prev == "" {
 		// baseline against the reference
 		want := expected(r)
 		got := o.Descs()
@@ -266,6 +276,11 @@ func main() {
 				}
 				run(Case{Resp: r.Name, Cuts: []int{a}})
 				h.Section("1-cuts", 1)
+				// the same packetisation as the SECOND response on the channel
+				for _, prev := range []string{"done-final", "done-count"} {
+					run(Case{Resp: r.Name, Cuts: []int{a}, Prev: prev})
+					h.Section("1-cuts-after-earlier-response", 1)
+				}
 				if n <= twoCutsMax {
 					for b := a + 1; b < n; b++ {
 						c := Case{Resp: r.Name, Cuts: []int{a, b}}
